@@ -31,7 +31,11 @@ def main():
             code = 0 if ok else 1
         else:
             common.prove(ctx, mod.LEAN_MODULE, leanchecker=(a.tier == "thorough" and getattr(mod, "LEANCHECKER", True)))
-            mod.run(ctx)
+            common.start_cover(ctx)
+            try:
+                mod.run(ctx)
+            finally:
+                common.stop_cover(ctx)
             code = common.decide(ctx, mod)
     except SystemExit:
         raise
